@@ -87,7 +87,8 @@ class G:
         """receivers in the states the operators branch on: empty but not yet detected (several ways), marked empty,
         universe, a single point (non-unit divisor), with a line, lower-dimensional"""
         r = self.r
-        k = r.choice(["undetected_empty", "undetected_empty", "marked_empty", "universe", "point", "line", "lowdim", "undetected_empty_gens_then_con",
+        k = r.choice(getattr(self, "special_kinds", None) or
+                     ["undetected_empty", "undetected_empty", "marked_empty", "universe", "point", "line", "lowdim", "undetected_empty_gens_then_con",
                       "pending_gens", "pending_cons"])
         if n == 0 and k in ("point", "line", "lowdim"): k = "universe"
         if k in ("pending_gens", "pending_cons"):
@@ -296,9 +297,11 @@ class G:
         lines.append("end")
         return [l for x in lines for l in x.split("\n")]
 
-def make_cases(seed, count, maxdim=3, nobj=3, steps=7, ops=None, pq=0.3, pobs=0.2, start=0, special=0.0, divbias=False, partners=True):
+def make_cases(seed, count, maxdim=3, nobj=3, steps=7, ops=None, pq=0.3, pobs=0.2, start=0, special=0.0, divbias=False, partners=True,
+               special_kinds=None):
     g = G(seed, maxdim)
     g.special_rate = special
+    g.special_kinds = special_kinds
     g.partners = partners
     if divbias:
         g.divs = [2, 3, 5, 7, 1]
@@ -409,6 +412,53 @@ class Lazy(G):
         L.append("qry 0 equals 2")
         L.append("stall"); L.append("end")
         return L
+
+
+    def touch_history(self, cid):
+        """a polytope (or polyhedron with a ray) with known integer vertices, in a random lazy state; constraints,
+        congruences and optimisation directions whose hyperplanes pass through a vertex (the set may only TOUCH them),
+        possibly shifted by a multiple of the modulus; each query on a fresh copy"""
+        r = self.r
+        n = r.randint(1, self.maxdim)
+        topo = r.choice(["C", "NNC", "NNC"])
+        pts = [[r.randint(-3, 3) for _ in range(n)] for _ in range(r.randint(1, 4))]
+        gs = ["p 1 %s" % " ".join(map(str, q)) for q in pts]
+        if topo == "NNC" and len(pts) > 1 and r.random() < 0.5:
+            gs[-1] = "c" + gs[-1][1:]            # one vertex is only a closure point
+        if r.random() < 0.25: gs.append(self.gen(n, topo, "r"))
+        # a non-unit divisor somewhere (scaled vertex: same point)
+        if r.random() < 0.5:
+            j = r.randrange(len(pts)); d = r.choice([2, 3])
+            gs[j] = "%s %d %s" % (gs[j][0], d, " ".join(str(d * x) for x in pts[j]))
+        r.shuffle(gs)
+        if not any(g.startswith("p") for g in gs): gs.append("p 1 %s" % " ".join(map(str, pts[0])))
+        L = ["case %s" % cid, "new 0 %s %d gens %d %s" % (topo, n, len(gs), " ".join(gs))]
+        for o in r.sample(["minimized_constraints", "minimized_generators", "constraints", "generators"], r.randint(0, 2)):
+            L.append("obs 0 %s" % o)
+        if r.random() < 0.3: L.append("op 0 add_generator %s" % self.gen(n, topo, "p"))       # a pending row
+        k = 1
+        for _ in range(r.randint(4, 8)):
+            v = r.choice(pts); a = self.vec(n, nz=True); dot = sum(x * y for x, y in zip(a, v))
+            u = r.random()
+            if u < 0.4:
+                m = r.choice([1, 2, 3, 5]); q = "relation_with_cg %d %d %s" % (m, -dot + m * r.choice([0, 0, 1, -1, 2]), " ".join(map(str, a)))
+            elif u < 0.65:
+                q = "relation_with_con %s %d %s" % (r.choice([">=", ">", "="]), -dot, " ".join(map(str, a)))
+            elif u < 0.8:
+                q = "%s %d 0 %s" % (r.choice(["maximize", "minimize", "frequency", "bounds_from_above"]), n, " ".join(map(str, a)))
+            else:
+                q = "relation_with_gen p 1 %s" % " ".join(map(str, v))
+            L.append("copy %d 0" % k); L.append("qry %d %s" % (k, q)); k += 1
+        L.append("stall"); L.append("end")
+        return L
+
+
+def make_touch_cases(seed, count, maxdim=3, start=0):
+    g = Lazy(seed, maxdim, big=0.0)
+    out = []
+    for i in range(count):
+        out += g.touch_history("T%d" % (start + i))
+    return out
 
 
 def make_lazy_cases(seed, count, maxdim=3, start=0):
